@@ -140,8 +140,10 @@ def wildcard_random(rng, count):
                 p.append(rng.choice([a for a in alpha if a < 0x80]))
         p = bytes(p)
         vals = []
-        for _ in range(10):
-            # values built from the pattern: stars replaced by random stuff, case flipped, one byte changed
+        for vi in range(10):
+            # values built from the pattern: stars replaced by random stuff, case flipped, one byte changed;
+            # the first two are long (any length threshold of a shortcut lies below them) and otherwise exact
+            long_v = vi < 2
             v = bytearray()
             i = 0
             while i < len(p):
@@ -151,11 +153,12 @@ def wildcard_random(rng, count):
                     i += 2
                     continue
                 if c == 0x2A:
-                    v += bytes(rng.choice(alpha) for _ in range(rng.choice([0, 0, 1, 2, 5])))
+                    v += bytes(rng.choice(alpha) for _ in range(rng.choice([31, 63, 64, 70, 130, 300] if long_v
+                                                                           else [0, 0, 1, 2, 5])))
                 else:
-                    v.append(c ^ 0x20 if rng.random() < 0.3 and chr(c).isalpha() else c)
+                    v.append(c ^ 0x20 if not long_v and rng.random() < 0.3 and chr(c).isalpha() else c)
                 i += 1
-            if v and rng.random() < 0.3:
+            if v and not (long_v and vi == 0) and rng.random() < 0.3:
                 v[rng.randrange(len(v))] = rng.choice(alpha)
             if rng.random() < 0.15:
                 v += bytes([rng.choice(alpha)])
